@@ -979,6 +979,49 @@ func (e *env) runCut(id string, self string, enc bool) {
 		}
 		e.emit("S\tKILL\t%s\t%d", res, len(got))
 	}
+	// a Set cut short by the backend's own operation timeout (WithTimeout / timeout=): a second handle on the same
+	// directory with a timeout far below what a large Set needs. Whatever that Set returns, a Get through the first
+	// handle returns the complete new value, or what was there before — never a part of the new value.
+	big := bytes.Repeat([]byte("T0123456789abcdef"), (6<<20)/17)
+	for i, d := range []time.Duration{1, 1000, 20 * time.Microsecond, 200 * time.Microsecond, time.Millisecond, 3 * time.Millisecond, 8 * time.Millisecond, 20 * time.Millisecond} {
+		withPrev := i%2 == 0
+		_ = c.Delete("cut")
+		prev := []byte(nil)
+		if withPrev {
+			prev = bytes.Repeat([]byte("O"), 300)
+			_ = c.Set("cut", prev)
+		}
+		ct, err := fscache.Open("verif", append(append([]fscache.Option{}, opts...), fscache.WithTimeout(d))...)
+		if err != nil {
+			continue
+		}
+		serr := ct.Set("cut", big)
+		// a Set that returned its timeout error goes on in the background and may land later: the key is watched until
+		// it has landed (or for a second), and EVERY state seen on the way is judged
+		res, glen := "", 0
+		for w := 0; w < 200; w++ {
+			got, gerr := c.Get("cut")
+			r := "other"
+			switch {
+			case gerr != nil && errors.Is(gerr, driver.ErrNotExist):
+				r = "absent"
+			case gerr != nil:
+				r = "geterr"
+			case bytes.Equal(got, big):
+				r = "new"
+			case withPrev && bytes.Equal(got, prev):
+				r = "prev"
+			}
+			if res == "" || r == "other" || r == "geterr" || (withPrev && r == "absent") {
+				res, glen = r, len(got)
+			}
+			if serr == nil || r == "new" || r == "other" || r == "geterr" {
+				break
+			}
+			time.Sleep(5 * time.Millisecond)
+		}
+		e.emit("S\tCUT\t%d\t%d\t%t\t%t\t%s\t%d", int(d), len(big), withPrev, serr == nil, res, glen)
+	}
 	e.emit("E\t%s", id)
 }
 
